@@ -117,7 +117,20 @@ class GzipCompressionHandler(AbstractDataCompressor):
 
     @staticmethod
     def decompress_payload(payload: bytes):
-        return zlib.decompress(payload, 16 + zlib.MAX_WBITS)
+        # a gzip stream may consist of several members (RFC 1952), the result is their concatenation.
+        # Everything in payload must belong to a complete member (zero padding at the end is tolerated):
+        # a truncated member or other trailing data is an error, it must not be dropped silently.
+        if not payload:
+            raise zlib.error('empty gzip stream')
+        parts = []
+        data = payload
+        while data:
+            decompressor = zlib.decompressobj(16 + zlib.MAX_WBITS)
+            parts.append(decompressor.decompress(data))
+            if not decompressor.eof:
+                raise zlib.error('incomplete or truncated gzip stream')
+            data = decompressor.unused_data.lstrip(b'\x00')
+        return b''.join(parts)
 
 
 CompressionHandler.register_handler(GzipCompressionHandler)
@@ -133,7 +146,16 @@ class Lz4CompressionHandler(AbstractDataCompressor):
 
     @staticmethod
     def decompress_payload(payload: bytes):
-        return lz4.frame.decompress(payload)
+        # payload may consist of several frames, the result is their concatenation. Trailing data that is
+        # not a complete frame is an error, it must not be dropped silently.
+        parts = []
+        data = payload
+        while True:
+            part, bytes_read = lz4.frame.decompress(data, return_bytes_read=True)
+            parts.append(part)
+            data = data[bytes_read:]
+            if not data:
+                return b''.join(parts)
 
 
 if lz4 is not None:
